@@ -107,12 +107,18 @@ async def run_history(spec: dict[str, Any], hist: History,
         sched = sched_from(spec)
         sessions = [Session(env, hist, i + 1, sched, spec['seed'] * 31 + i)
                     for i in range(spec['nsess'])]
-        for s in sessions:
+        for i, s in enumerate(sessions):
             if not await s.start():
                 return
-            r = await s.select(b'INBOX')
+            # some observers are read-only: their STORE/EXPUNGE/MOVE are
+            # refused, and a refusal must not cost them any later report
+            ro = i > 0 and rng.random() < 0.3
+            r = await s.select(b'INBOX', examine=ro)
             if not r.ok:
                 return
+            if ro:
+                counters['readonly_sessions'] = \
+                    counters.get('readonly_sessions', 0) + 1
             await s.fetch_all()
         rounds = spec['rounds']
         for rnd in range(rounds):
@@ -170,8 +176,39 @@ async def script_silent_store(hist: History,
     await converge_check(env, hist, [a, b], counters, 'script')
 
 
+async def script_refused_store(hist: History, counters: dict[str, int],
+                               silent: bool = False) -> None:
+    """A read-only observer's non-UID STORE is refused; the refusal must not
+    cost it the report of B's expunge (or, .SILENT, of B's flag change)."""
+    env = await make_env('dict')
+    loop = asyncio.get_event_loop()
+    await provision(env, hist, 3, random.Random(1))
+    from ..net import Sched
+    a, b = (Session(env, hist, i, Sched(), i) for i in (1, 2))
+    for s in (a, b):
+        await s.start()
+        await s.select(b'INBOX', examine=s is a)
+        await s.fetch_all()
+    if silent:
+        await a.store(b'1', False, b'+FLAGS', True, [b'\\Flagged'])
+        await b.store(b'1', False, b'+FLAGS', False, [b'\\Flagged'])
+    else:
+        await b.cmd(b'STORE 2 +FLAGS (\\Deleted)')
+        await b.cmd(b'EXPUNGE')
+        await a.store(b'1', False, b'+FLAGS', False, [b'\\Flagged'])
+    await loop.quiescent()          # type: ignore[attr-defined]
+    await converge_check(env, hist, [a, b], counters, 'script')
+
+
+async def script_refused_silent_store(hist: History,
+                                      counters: dict[str, int]) -> None:
+    await script_refused_store(hist, counters, silent=True)
+
+
 SCRIPTS = {'store-on-expunged': script_store_on_expunged,
-           'silent-store': script_silent_store}
+           'silent-store': script_silent_store,
+           'refused-store': script_refused_store,
+           'refused-silent-store': script_refused_silent_store}
 
 
 class C02(Check):
